@@ -35,6 +35,13 @@ pub struct ChildLog {
     pub ever_disabled: Cell<bool>,
     /// what the child's process_events returns next
     pub next_ret: Cell<Option<PostAction>>,
+    /// the parent source (for scripted failures)
+    pub parent: Id,
+    /// scripted failures: bit 1 = the next register() fails, bit 2 = the next unregister() fails
+    /// (before doing anything, so the child's registration is as it was)
+    pub fail: Cell<u8>,
+    pub fail_fired: Cell<bool>,
+    pub reported: Cell<bool>,
 }
 
 enum ChildImpl {
@@ -101,6 +108,12 @@ impl EventSource for Child {
     }
 
     fn register(&mut self, poll: &mut Poll, tf: &mut TokenFactory) -> calloop::Result<()> {
+        if self.log.fail.get() & 1 != 0 {
+            self.log.fail.set(self.log.fail.get() & !1);
+            self.log.fail_fired.set(true);
+            crate::engine::scripted_failure(self.log.parent, 1);
+            return Err(calloop::Error::OtherError(Box::new(crate::wrap::Scripted("child register"))));
+        }
         self.log.reg.set(self.log.reg.get() + 1);
         if self.log.registered.get() {
             self.log.double_register.set(true);
@@ -123,6 +136,12 @@ impl EventSource for Child {
     }
 
     fn unregister(&mut self, poll: &mut Poll) -> calloop::Result<()> {
+        if self.log.fail.get() & 2 != 0 {
+            self.log.fail.set(self.log.fail.get() & !2);
+            self.log.fail_fired.set(true);
+            crate::engine::scripted_failure(self.log.parent, 3);
+            return Err(calloop::Error::OtherError(Box::new(crate::wrap::Scripted("child unregister"))));
+        }
         self.log.unreg.set(self.log.unreg.get() + 1);
         if !self.log.registered.get() {
             self.log.double_unregister.set(true);
@@ -208,10 +227,14 @@ pub struct TransK {
     pub rets: Rc<RefCell<Vec<PostAction>>>,
     pub rets_checked: usize,
     pub inproc: Rc<RefCell<Vec<InProc>>>,
+    /// scripted failure armed for the next replacement child's register()
+    pub arm_new_register_fail: bool,
+    /// the history left the documented protocol (documented leak, non-alternating parent calls)
+    pub gave_up: bool,
 }
 
-fn make_child(sim: &Sim, spec: &ChildSpec, no: u32) -> (Child, ChildM) {
-    let log = Rc::new(ChildLog { no, ..Default::default() });
+fn make_child(sim: &Sim, spec: &ChildSpec, no: u32, parent: Id, fail: u8) -> (Child, ChildM) {
+    let log = Rc::new(ChildLog { no, parent, fail: Cell::new(fail), ..Default::default() });
     match spec {
         ChildSpec::Timer(dl) => {
             let t = match dl {
@@ -241,7 +264,7 @@ pub fn insert_transient(sim: &Sim, id: Id, child: &ChildSpec, from_default: bool
     let (tr, children, current) = if from_default {
         (TransientSource::default(), vec![], None)
     } else {
-        let (c, m) = make_child(sim, child, 0);
+        let (c, m) = make_child(sim, child, 0, id, 0);
         (TransientSource::from(c), vec![m], Some(0))
     };
     let sh = WrapShared::new(id);
@@ -251,7 +274,7 @@ pub fn insert_transient(sim: &Sim, id: Id, child: &ChildSpec, from_default: bool
         let _g = &guard;
         on_child_event(id, child_no, tag);
     });
-    let mut src = new_src(id, script, K::Trans(TransK { disp: Some(disp.clone()), children, current, child_disabled: false, pending_remove: false, pending_replace: None, rets, rets_checked: 0, inproc }), sh, cbd);
+    let mut src = new_src(id, script, K::Trans(TransK { disp: Some(disp.clone()), children, current, child_disabled: false, pending_remove: false, pending_replace: None, rets, rets_checked: 0, inproc, arm_new_register_fail: false, gave_up: false }), sh, cbd);
     src.kept = true;
     let r = guarded(sim, "register_dispatcher", || h.register_dispatcher(disp).map_err(|e| e.to_string()));
     if let Some(r) = r {
@@ -337,7 +360,46 @@ pub fn check(sim: &Sim, id: Id, when: &'static str) {
     let st = sim.st.borrow();
     let Some(s) = st.srcs.get(&id) else { return };
     let K::Trans(t) = &s.k else { return };
-    if s.indeterminate || s.in_processing > 0 {
+    if s.in_processing > 0 {
+        return;
+    }
+    if s.indeterminate {
+        // after a failure inside the wrapper's own (un)registration little is promised, but a
+        // child is still never dropped while it is registered, and a replacement whose
+        // installation failed is still there for the next attempt
+        let mut viol: Option<(&'static str, Vec<String>, String)> = None;
+        if s.inserted && st.loop_alive && !t.gave_up && t.children.iter().any(|c| c.log.fail_fired.get()) {
+            for c in t.children.iter() {
+                if c.log.dropped_registered.get() && !c.log.reported.get() {
+                    c.log.reported.set(true);
+                    viol = Some(("transient.dropped_registered", vec!["after_failure".into()], format!("child {} of transient parent {} was dropped while still registered (after a failed (un)registration)", c.log.no, id)));
+                    break;
+                }
+            }
+            if viol.is_none() {
+                if let Some(n) = t.pending_replace {
+                    let c = &t.children[n];
+                    if c.log.dropped.get() > 0 && !c.log.reported.get() {
+                        c.log.reported.set(true);
+                        viol = Some(("transient.child_not_dropped", vec!["replacement_lost".into()], format!("the replacement child {} of transient parent {} was dropped by the re-registration that failed to install it", c.log.no, id)));
+                    }
+                }
+            }
+        }
+        let evaluated = s.inserted && st.loop_alive && !t.gave_up && t.children.iter().any(|c| c.log.fail_fired.get());
+        drop(st);
+        if evaluated {
+            // once, right after the operation that failed: what later operations do to a
+            // source in this state (enable of an enabled parent, ...) is outside every protocol
+            if let Some(K::Trans(t)) = sim.st.borrow_mut().srcs.get_mut(&id).map(|s| &mut s.k) {
+                t.gave_up = true;
+            }
+        }
+        if let Some((r, f, d)) = viol {
+            sim.violate(r, f, d);
+        } else if evaluated {
+            sim.rule_ok(&["C18", "C15"], 181);
+        }
         return;
     }
     let parent_registered = s.inserted && s.enabled;
@@ -422,8 +484,9 @@ pub fn tr_op(sim: &Sim, id: Id, op: &Op, in_cb: bool, lazy: bool) {
             }
             Op::TrReplace(_, spec) => {
                 let no = t.children.len() as u32;
+                let fail = std::mem::replace(&mut t.arm_new_register_fail, false) as u8;
                 drop(st);
-                let (c, m) = make_child(sim, spec, no);
+                let (c, m) = make_child(sim, spec, no, id, fail);
                 let mut st = sim.st.borrow_mut();
                 let Some(K::Trans(t)) = st.srcs.get_mut(&id).map(|s| &mut s.k) else { return };
                 t.children.push(m);
@@ -462,6 +525,7 @@ pub fn tr_op(sim: &Sim, id: Id, op: &Op, in_cb: bool, lazy: bool) {
                         // remove() on a Replace state removes the *new* source; the old one leaks
                         // its registration per the documentation: outside the protocol, give up
                         let _ = n;
+                        t.gave_up = true;
                         drop(st);
                         if let Some(s) = sim.st.borrow_mut().srcs.get_mut(&id) {
                             s.indeterminate = true;
@@ -473,7 +537,11 @@ pub fn tr_op(sim: &Sim, id: Id, op: &Op, in_cb: bool, lazy: bool) {
         }
         Op::TrReplace(_, spec) => {
             let no = sim.st.borrow().srcs.get(&id).map(|s| if let K::Trans(t) = &s.k { t.children.len() as u32 } else { 0 }).unwrap_or(0);
-            let (c, m) = make_child(sim, spec, no);
+            let fail = match sim.st.borrow_mut().srcs.get_mut(&id).map(|s| &mut s.k) {
+                Some(K::Trans(t)) => std::mem::replace(&mut t.arm_new_register_fail, false) as u8,
+                _ => 0,
+            };
+            let (c, m) = make_child(sim, spec, no, id, fail);
             let had_pending = {
                 let st = sim.st.borrow();
                 matches!(st.srcs.get(&id).map(|s| &s.k), Some(K::Trans(t)) if t.pending_replace.is_some() || t.pending_remove)
@@ -509,6 +577,23 @@ pub fn tr_op(sim: &Sim, id: Id, op: &Op, in_cb: bool, lazy: bool) {
     }
     if inserted && enabled && !matches!(op, Op::TrMap(_)) {
         crate::ops::exec_op(sim, &Op::Update(id), in_cb);
+    }
+}
+
+/// Arm a scripted failure: what = 1: the register() of the next replacement child fails;
+/// what = 2: the next unregister() of the current child fails.
+pub fn arm_child_failure(sim: &Sim, id: Id, what: u8) {
+    let mut st = sim.st.borrow_mut();
+    let Some(s) = st.srcs.get_mut(&id) else { return };
+    if s.indeterminate || !s.inserted {
+        return;
+    }
+    let K::Trans(t) = &mut s.k else { return };
+    if what == 1 {
+        t.arm_new_register_fail = true;
+    } else if let Some(i) = t.current {
+        let l = &t.children[i].log;
+        l.fail.set(l.fail.get() | 2);
     }
 }
 
